@@ -86,11 +86,37 @@ def find_units(crate, o, m):
             if D is None:
                 continue
             T, k = arc_comp(v)
+            val = ev["val"]
+            xy = sum_parts(val)
+            if T is None and in_cl and v[0] == "arg" and len(v) == 2 and xy:
+                # a closure over scalars: |dist, u, v, w| { .. dist[v] = dist[u] + w }; which components of which arc the
+                # scalars are is decided at the call sites (R1-closure-args)
+                got = None
+                for x, y in (xy, xy[::-1]):
+                    r, ui = dist_load(an, x, in_cl)
+                    if r == D and ui is not None and ui[0] == "arg" and y[0] == "arg" and len({ui[1], v[1], y[1]}) == 3:
+                        got = (ui[1], v[1], y[1], x)
+                if got is not None:
+                    tpar, hpar, wpar, u_load = got
+                    b = ev["b"]
+                    o.check(True, WHO, "R1-target-is-head", "")
+                    o.check(True, WHO, "R1-stored-term", "")
+                    o.check(fx.holds(b, lambda rel: any(a[0] == "ne" and u_load in a[1:] and ("const", "isize", IMAX) in a[1:] for a in rel.w)),
+                            WHO, "R1-unreached-guard", "a relaxation is not guarded by dist[tail] != isize::MAX (an unreached tail would be relaxed from)", ev["span"])
+
+                    def improves_s(rel, val=val, v=v, D=D):
+                        for a in rel.w:
+                            if a[0] in ("lt", "le") and a[1] == val and a[2][0] == "mem":
+                                r, i = dist_load(an, a[2], in_cl)
+                                if r == D and i == v:
+                                    return True
+                        return False
+                    o.check(fx.holds(b, improves_s), WHO, "R1-improvement-guard", "a relaxation store is not guarded by dist[head] > dist[tail] + w", ev["span"])
+                    units.append(Unit(an, fx, ev, ("argscalars", tpar, hpar, wpar), u_load))
+                    continue
             if not o.check(T is not None and k == 1, WHO, "R1-target-is-head",
                            "dist[] is written at an index that is not the head of an arc tuple", ev["span"]):
                 continue
-            val = ev["val"]
-            xy = sum_parts(val)
             good = False
             u_load = None
             if xy:
@@ -348,8 +374,19 @@ def rule_relax_agree(crate, prop, tier):
             if tgt in closures and ev["args"][1][0] == "agg":
                 targs = ev["args"][1][3]
                 cu = [u for u in units if u.an.path == tgt][0]
-                if cu.T[0] == "argptr" and cu.T[1] - 2 < len(targs):
-                    apps.append((ev["b"], targs[cu.T[1] - 2], "call", ev))
+                if cu.T[0] == "argscalars":
+                    _, tp_, hp_, wp_ = cu.T
+                    comps = []
+                    for par, want in ((tp_, 0), (hp_, 1), (wp_, 2)):
+                        a_ = targs[par - 2] if 0 <= par - 2 < len(targs) else None
+                        Tc, kc = arc_comp(a_) if a_ is not None else (None, None)
+                        comps.append((Tc, kc == want))
+                    same = len({c_[0] for c_ in comps}) == 1 and comps[0][0] is not None and all(c_[1] for c_ in comps)
+                    if o.check(same, WHO, "R1-closure-args", "the relaxation closure is not applied to (tail, head, weight) of one arc", ev["span"]):
+                        apps.append((ev["b"], comps[0][0], "call", ev))
+                if (cu.T[0] == "argptr" and cu.T[1] - 2 < len(targs)) or cu.T[0] == "argscalars":
+                    if cu.T[0] == "argptr":
+                        apps.append((ev["b"], targs[cu.T[1] - 2], "call", ev))
                     # the dist parameter is self.dist
                     dreg = None
                     for u2 in units:
@@ -435,11 +472,16 @@ def rule_relax_agree(crate, prop, tier):
                 if not st["place"]["proj"] and const_is(t, 1) and an.locals[st["place"]["local"]]["ty"]["k"] == "bool" \
                         and same_region(an, sb, bb) and an.cfg.dominates(sb, bb):
                     flags.add(st["place"]["local"])
+                elif not st["place"]["proj"] and an.locals[st["place"]["local"]]["ty"]["k"] == "bool" and t[0] == "bin" \
+                        and t[1] in ("Lt", "Le") and \
+                        fx.holds(sb, lambda rel, t=t: rel.lt(t[2], t[3]) if t[1] == "Lt" else rel.le(t[2], t[3])):
+                    # `let improved = dist[v] > candidate; if improved { store }`: true whenever the store executes
+                    flags.add(st["place"]["local"])
             o.check(bool(flags), WHO, "R3-sets-flag", "a relaxation store is not followed by setting the `changed` flag", payload.ev["span"])
         else:
             ev = payload
             # the closure returns true on the storing path ...
-            cu = [u for u in units if u.an is not an and u.T[0] == "argptr"]
+            cu = [u for u in units if u.an is not an and u.T[0] in ("argptr", "argscalars")]
             for u in cu:
                 o.check(returns_true_after(u), WHO, "R3-sets-flag", "the relaxation closure does not report a store by returning true", u.ev["span"])
             # ... and the result is OR-ed into (or conditionally raises) a bool local
@@ -501,7 +543,8 @@ def rule_relax_agree(crate, prop, tier):
             if st["place"]["local"] == 0 and not st["place"]["proj"] and t[0] == "agg" and t[1] == "adt" and t[2][1] == "None":
                 nones0.append((bb, st["span"]))
         weak = [(bb, sp) for bb, sp in nones0 if not fx.holds(bb, lambda rel: any(
-            a[0] == "lt" and a[2][0] == "mem" and load_parts(a[2])[0] == "A1.dist" and sum_parts(a[1]) for a in rel.w))]
+            a[0] == "lt" and a[2][0] == "mem" and load_parts(a[2])[0] == "A1.dist" and sum_parts(a[1]) for a in rel.w))
+            and not _none_under_any_pass(crate, an, fx, bb)]
         for bb, sp in weak:
             o.check(False, WHO, "R4-strict-detection", "None is returned without a dominating strict test dist[head] > dist[tail] + w "
                     "on an arc (there is no final pass over the arcs)", sp)
@@ -597,6 +640,82 @@ def rule_relax_agree(crate, prop, tier):
     return o.report(floors={"Bellman-Ford-Moore": (o.instances, 1), "relaxation sites": (len(units), 1)})
 
 
+def _none_under_any_pass(crate, an, fx, bb):
+    """the None at block bb is returned exactly when `arcs.iter().any(|&(u, v, w)| dist[u] != MAX && dist[v] > dist[u] + w)`
+    found an arc: the closure can return true only under the unreached guard and the strict test on one arc"""
+    from .closures import capture_map
+    IT = "core::iter::traits::iterator::Iterator::"
+    for ev in an.events:
+        if ev["k"] != "call" or ev["key"] != IT + "any" or len(ev["args"]) != 2:
+            continue
+        clo = ev["args"][1]
+        if not (clo[0] == "agg" and clo[1] == "closure"):
+            continue
+        if not fx.holds(bb, lambda rel: rel.has(("true", ev["res"]))):
+            continue
+        cl = crate.an(clo[2])
+        cfx = crate.fx(clo[2])
+        rets = [e for e in cl.events if e["k"] == "return"]
+        if len(rets) != 1:
+            continue
+        rv = rets[0]["val"]
+        ok_all = True
+        n = 0
+        for w in cfx.worlds_at(rets[0]["b"]):
+            w = set(w)
+            if rv[0] == "phi" and (any(a[0] == "eq" and rv in a[1:] and ("const", "bool", 0) in a[1:] for a in w) or ("false", rv) in w):
+                continue        # a path that returns false
+            n += 1
+            strict = guard = False
+            cand = [a for a in w if a[0] == "lt"]
+            if rv[0] == "bin" and rv[1] == "Lt":
+                cand.append(("lt", rv[2], rv[3]))
+            for a in w:
+                if a[0] == "ne" and ("const", "isize", IMAX) in a[1:]:
+                    guard = True
+                if a[0] == "eq" and rv in a[1:]:
+                    oth = a[2] if a[1] == rv else a[1]
+                    if oth[0] == "bin" and oth[1] == "Lt":
+                        cand.append(("lt", oth[2], oth[3]))
+            for a in cand:
+                xy = sum_parts(a[1])
+                if xy and a[2][0] == "mem":
+                    ws = []
+                    deep_arc_terms(a[1], ws)
+                    hT, hk = None, None
+                    r_, hi = dist_load(cl, a[2], True)
+                    if hi is None:
+                        r_, hi = load_parts(a[2])
+                    hT, hk = arc_comp(hi) if hi else (None, None)
+                    if hT is not None and hk == 1 and (hT, 0) in [(t_, k_) for t_, k_ in _tail_arcs(cl, a[1])] and (hT, 2) in ws:
+                        strict = True
+            ok_all = ok_all and strict and guard
+        if n and ok_all:
+            return True
+    return False
+
+
+def _tail_arcs(cl, summ):
+    """arc components used as index of a dist load inside the sum"""
+    out = []
+
+    def walk(t):
+        if isinstance(t, tuple) and t:
+            if t[0] == "mem" and t[3] is not None:
+                r, i = dist_load(cl, t, True)
+                if i is None:
+                    r, i = load_parts(t)
+                if i is not None:
+                    T, k = arc_comp(i)
+                    if T is not None:
+                        out.append((T, k))
+            for x in t:
+                if isinstance(x, tuple):
+                    walk(x)
+    walk(summ)
+    return out
+
+
 def returns_true_after(u):
     """the closure's return value is `true` on every path from the storing block to the return"""
     an = u.an
@@ -622,7 +741,14 @@ def returns_true_after(u):
                 val = an.var_term(an.ver_out[came], val[2])
             val = resolve_phi_along(an, val, seen_edges=[x for x in seen])
             if not const_is(val, 1):
-                return False
+                # `let improved = dist[v] > candidate; if improved { store } improved`: the returned value is the very
+                # condition under which the store happens
+                fx_ = u.fx
+                known = fx_.holds(sb, lambda rel: rel.has(("true", val)) or
+                                  (val[0] == "bin" and val[1] == "Lt" and rel.lt(val[2], val[3])) or
+                                  (val[0] == "bin" and val[1] == "Le" and rel.le(val[2], val[3])))
+                if not known:
+                    return False
             ok = True
             continue
         for tg, lab in an.cfg.succ[b]:
